@@ -20,7 +20,7 @@ CLS = "ParserX86ATT"
 
 
 def run(ctx):
-    C.require_locals(ctx, ctx.func('ParserX86ATT.process_memory_address'), ['memory_address', 'offset', 'base', 'index', 'scale', 'baseOp', 'indexOp'])
+    C.require_locals(ctx, ctx.func('ParserX86ATT.process_memory_address'), ['memory_address'])
     C.require_locals(ctx, ctx.func('ParserX86ATT.parse_line'), ['result'])
     C.require_locals(ctx, ctx.func('ParserX86ATT.parse_instruction'), ['result', 'operands'])
     gr = Grammar(ctx.repo, CLS)
@@ -33,22 +33,75 @@ def run(ctx):
     n = P.r5_conversions(ctx, CLS, gr, reads, {"name", "scale"})
     ctx.floor("R5", "int() conversions of grammar tokens", n, 4)
     f = ctx.func(CLS + ".process_memory_address")
-    sc = pm.find('scale = 1 if "scale" not in M_m else int(M_m["scale"], 0)', f.node)
-    ctx.check(bool(sc), "R5", "omitted scale defaults to 1", f.where(), "scale default is not 1 when the scale is omitted", f.qname,
-              "scale default")
-    mo = pm.find("M_d = MemoryOperand(offset=offset, base=baseOp, index=indexOp, scale=scale)", f.node)
-    ctx.check(bool(mo), "R5", "memory operand is built from offset/base/index/scale in their own slots", f.where(),
-              "MemoryOperand is not constructed with offset=offset, base=<base register>, index=<index register>, scale=scale",
-              f.qname, "memory construction")
-    for var, key in (("baseOp", "base"), ("indexOp", "index")):
-        d = [a for a in ast.walk(f.node) if isinstance(a, ast.Assign) and U(a.targets[0]) == var and isinstance(a.value, ast.Call)]
-        ok = bool(d) and any(k.arg == "name" and U(k.value) == "%s['name']" % key for k in d[0].value.keywords)
-        ctx.check(ok, "R5", "%s register is built from the %s slot" % (key, key), f.where(), "%s is built from another slot" % var,
-                  f.qname, "%s slot" % key)
+    M = f.params()[1]
+    flow = C.flow_of(f)
+    mos = [c for c in ast.walk(f.node) if isinstance(c, ast.Call) and pm.call_name(c) == "MemoryOperand"]
+    if len(mos) != 1 or mos[0].args or any(k.arg is None for k in mos[0].keywords):
+        ctx.unknown("R5", f.where(), "the memory operand is not built by one MemoryOperand(<keywords>) call", f.qname, "memory construction")
+    else:
+        mo = mos[0]
+        kws = {k.arg: k.value for k in mo.keywords}
+        ctx.check(all(k in kws for k in ("offset", "base", "index", "scale")), "R5",
+                  "memory operand is built from offset/base/index/scale in their own slots", f.where(mo),
+                  "MemoryOperand is constructed without one of offset/base/index/scale", f.qname, "memory construction")
+        if "scale" in kws:
+            r = flow.subst(kws["scale"])
+            got = C.CT(U(r))
+            want = C.CT('int(%s["scale"], 0) if "scale" in %s else 1' % (M, M))
+            recognised = got == want or isinstance(r, (ast.IfExp, ast.Constant)) or (isinstance(r, ast.Call) and pm.call_name(r) == "int")
+            ctx.judge(got == want, recognised, "R5", "omitted scale defaults to 1; a written scale is converted with base 0", f.where(mo),
+                      "the scale handed to MemoryOperand is %s" % U(r), f.qname, "scale default")
+        for slot in ("base", "index"):
+            if slot not in kws:
+                continue
+            v = kws[slot]
+            regs = []
+            if isinstance(v, ast.Name):
+                for d in flow.reaching(mo, v.id):
+                    if d.kind == "assign" and isinstance(d.value, ast.Call) and pm.call_name(d.value) == "RegisterOperand":
+                        regs.append(d.value)
+                    elif d.kind == "assign" and isinstance(d.value, ast.Constant) and d.value.value is None:
+                        pass
+                    else:
+                        regs.append(None)
+            elif isinstance(v, ast.Call) and pm.call_name(v) == "RegisterOperand":
+                regs.append(v)
+            else:
+                regs.append(None)
+            if not regs or any(r is None for r in regs):
+                ctx.unknown("R5", f.where(mo), "the %s register of the memory operand is not a RegisterOperand(..) built in this function" % slot,
+                            f.qname, "%s slot" % slot)
+                continue
+            for r in regs:
+                nm = [k.value for k in r.keywords if k.arg == "name"]
+                src = flow.subst(nm[0]) if nm else None
+                key = P.key_source(src.value, M) if isinstance(src, ast.Subscript) and isinstance(src.slice, ast.Constant) \
+                    and src.slice.value == "name" else None
+                ctx.judge(key == slot, key is not None, "R5", "%s register is built from the %s slot" % (slot, slot), f.where(r),
+                          "the %s register is built from %s" % (slot, U(src) if src is not None else "nothing"), f.qname, "%s slot" % slot)
+        if isinstance(kws.get("offset"), ast.Name):
+            ov = kws["offset"].id
+            foreign = set()
+            for d in flow.reaching(mo, ov):
+                if d.value is None:
+                    continue
+                for x in ast.walk(d.value):
+                    if isinstance(x, ast.Constant) and x.value in ("base", "index", "scale"):
+                        foreign.add(x.value)
+            ctx.check(not foreign, "R5", "the offset slot is built from the written offset only", f.where(mo),
+                      "the offset handed to MemoryOperand is computed from %s" % sorted(foreign), f.qname, "offset slot")
     pi = ctx.func(CLS + ".process_immediate")
-    ctx.check(bool(pm.find('M_i = ImmediateOperand(value=int(immediate["value"], 0))', pi.node)), "R5",
-              "immediates become integers (sign and base from the literal)", pi.where(), "immediate conversion changed", pi.qname,
-              "immediate conversion")
+    ip = pi.params()[1]
+    iflow = C.flow_of(pi)
+    imm = [c for c in ast.walk(pi.node) if isinstance(c, ast.Call) and pm.call_name(c) == "ImmediateOperand"
+           and any(k.arg == "value" for k in c.keywords)]
+    if not imm:
+        ctx.unknown("R5", pi.where(), "no ImmediateOperand(value=..) is built in process_immediate", pi.qname, "immediate conversion")
+    for c in imm:
+        v = [k.value for k in c.keywords if k.arg == "value"][0]
+        got = C.CT(U(iflow.subst(v)))
+        ctx.check(got == C.CT('int(%s["value"], 0)' % ip), "R5", "immediates become integers (sign and base from the literal)", pi.where(c),
+                  "the immediate value is %s" % got, pi.qname, "immediate conversion")
     inst = ctx.func(CLS + ".parse_instruction")
     order = [U(c.args[0]) for c in C.calls_to(inst.node, "process_operand")]
     ctx.check(order == ["result['operand%d']" % i for i in range(1, 5)], "R4", "operands are collected in written order 1..4", inst.where(),
